@@ -3,11 +3,14 @@ package main
 import (
 	"fmt"
 	"math/rand"
+	"os"
+	"regexp"
 	"strings"
 
 	casbin "github.com/casbin/casbin/v2"
 	"github.com/casbin/casbin/v2/constant"
 	"github.com/casbin/casbin/v2/model"
+	"github.com/casbin/casbin/v2/util"
 )
 
 // ---------------------------------------------------------------------------------------
@@ -824,6 +827,27 @@ func c17RunSpec(c *Ctx, s *c17Spec, steps int, maxReq int) {
 	}
 }
 
+// c17KnownID looks for `known: property=C17 <id> <text matching pat>` in known_findings.txt (read
+// only) and returns the id, "" when there is none.
+func c17KnownID(pat string) string {
+	root := os.Getenv("VERIF_ROOT")
+	if root == "" {
+		root = "/verif"
+	}
+	data, err := os.ReadFile(root + "/known_findings.txt")
+	if err != nil {
+		return ""
+	}
+	re := regexp.MustCompile(`^known:\s+property=C17\s+(\S+)\s+(.*)$`)
+	want := regexp.MustCompile(pat)
+	for _, line := range strings.Split(string(data), "\n") {
+		if m := re.FindStringSubmatch(strings.TrimSpace(line)); m != nil && want.MatchString(m[2]) {
+			return m[1]
+		}
+	}
+	return ""
+}
+
 // c17EmptyPolicyWitness replays the refuted lemma C17_add_to_empty_refuted on the real code.
 // It is reported in the notes only (no finding id is assigned to it).
 func c17EmptyPolicyWitness(c *Ctx) {
@@ -841,7 +865,36 @@ func c17EmptyPolicyWitness(c *Ctx) {
 	x0, _ := e2.Enforce("^a$")
 	_, _ = e2.RemovePolicy("^a$")
 	x1, _ := e2.Enforce("^a$")
+	// if the orchestrator's list names this behaviour as a known finding of C17 (a `known:` line
+	// mentioning the empty policy / policy-free branch), report it under that id
+	if id := c17KnownID(`(?i)empty[- ]policy|policy-free`); id != "" {
+		status := "gone"
+		if (d0 && !d1) || (!x0 && x1) {
+			status = "reproduced"
+		}
+		c.Known = append(c.Known, fmt.Sprintf("%s\t%s\tempty policy: Enforce(\"\",\"\",\"\")=%v, after AddPolicy=%v; regexMatch model: Enforce(^a$)=%v, after RemovePolicy of the only rule=%v", id, status, d0, d1, x0, x1))
+	}
 	c.Notes = append(c.Notes, fmt.Sprintf("guard witness (C17_add_to_empty_refuted) on the real code: basic model, EMPTY policy: Enforce(\"\",\"\",\"\")=%v; after AddPolicy(alice,data1,read): %v.  m = regexMatch(r.act, p.act), policy [^a$]: Enforce(\"^a$\")=%v; after RemovePolicy (empty policy): %v.  The main stream applies the theorem's guard (the smaller policy is non-empty or the policy-free branch does not grant).", d0, d1, x0, x1))
+}
+
+// c17PatternNeutralityWitness shows why add+remove neutrality of LINKS is not claimed (and not in
+// the stream) for pattern role managers: the witness of F06 (a finding of C05/C04) also breaks
+// it.  Notes only.
+func c17PatternNeutralityWitness(c *Ctx) {
+	m, err := model.NewModelFromString("[request_definition]\nr = sub, obj, act\n[policy_definition]\np = sub, obj, act\n[role_definition]\ng = _, _\n[policy_effect]\ne = some(where (p.eft == allow))\n[matchers]\nm = g(r.sub, p.sub) && r.obj == p.obj && r.act == p.act\n")
+	if err != nil {
+		panic(err)
+	}
+	e, _ := casbin.NewEnforcer(m)
+	e.AddNamedMatchingFunc("g", "RegexMatch", util.RegexMatch)
+	_, _ = e.AddPolicy("admin", "data1", "read")
+	_, _ = e.AddGroupingPolicy("u", "^/a/.*$")
+	_, _ = e.AddGroupingPolicy("^.*1$", "admin")
+	d0, _ := e.Enforce("u", "data1", "read")
+	_, _ = e.AddGroupingPolicy("x", "/a/b1")
+	_, _ = e.RemoveGroupingPolicy("x", "/a/b1")
+	d1, _ := e.Enforce("u", "data1", "read")
+	c.Notes = append(c.Notes, fmt.Sprintf("pattern role manager (RegexMatch), links [u ^/a/.*$] [^.*1$ admin]: Enforce(u,data1,read)=%v; after AddGroupingPolicy(x,/a/b1) + RemoveGroupingPolicy(x,/a/b1) (listing unchanged): %v.  This is F06 (C05/C04): names of removed links stay in the role manager and take part in matching; hence add+remove neutrality of links is claimed for role managers without matching functions only.", d0, d1))
 }
 
 func init() {
@@ -872,6 +925,7 @@ func init() {
 			c17RunSpec(c, s, genSteps, maxReq)
 		}
 		c17EmptyPolicyWitness(c)
+		c17PatternNeutralityWitness(c)
 		c.Notes = append(c.Notes, "allow-override examples with a negation-free matcher (rule AND link monotonicity checked): "+strings.Join(qualifying, ", "))
 		c.Notes = append(c.Notes, "allow-override examples whose matcher text contains '!', '?', '-' or false (rule monotonicity only): "+strings.Join(negated, ", "))
 		c.Notes = append(c.Notes, "priority / subjectPriority examples are excluded from permutation and reload-in-another-order (the effect is order-sensitive by design, C17_priority_perm_refuted)")
